@@ -11,7 +11,11 @@
 (* OPERATIONAL PART - one action per step the code takes:                  *)
 (*   AddRw / AddRd / AddBad   the author writes one more rewrite / redir   *)
 (*                            line (a site has <= MaxRules of them)        *)
+(*   StartSetup               executeDirectives reaches rewrite (a sampled *)
+(*                            site only, see Sampled)                      *)
 (*   RwParseLine              one `for c.Next()` iteration of rewriteParse *)
+(*                            (NewSimpleRule / NewComplexRule: Compile)    *)
+(*   RwParseDone              rewrite's setup returned nil, redir's starts *)
 (*   RdParseLine              one `for c.Next()` iteration of redirParse   *)
 (*                            (initRule + checkAndSaveRule per entry)      *)
 (*   SetupDone                both setups returned nil: the site serves    *)
@@ -34,9 +38,13 @@
 (* action properties listed in the cfg files.                              *)
 (*                                                                         *)
 (* Strings are sequences of one-character strings (TLC cannot index a      *)
-(* string); Str() joins them for the CASE lines.  In this file the tuples  *)
-(* were produced from <<"t","e","x","t">> by a small script; [pk |-> "lit", pv |-> <<"x">>] / [pk |-> "ph", pv |-> <<"n","a","m","e">>] are the    *)
-(* literal / placeholder pieces of a text.                                 *)
+(* string): "/old" is written << "/", "o", "l", "d" >>; Str() joins them    *)
+(* for the CASE lines.  A text of the Casketfile that may hold             *)
+(* placeholders is a sequence of pieces [pk |-> "lit", pv |-> chars] /      *)
+(* [pk |-> "ph", pv |-> name]: Flat() is the text as written, Replace()    *)
+(* the replacer's scan of it, ExpandDecl() the piecewise substitution.     *)
+(* The comment above every pool line shows the Casketfile text it stands   *)
+(* for (the Go harness renders it from the structured form).               *)
 (*                                                                         *)
 (* Deliberate deviations from the code, each guarded by a checked          *)
 (* assumption: url.Parse of the cleaned target is the identity (no '%',    *)
@@ -288,8 +296,8 @@ RdPool == [
                          << Entry(<<"/">>, <<[pk |-> "lit", pv |-> <<"/","m","o","v","e","d">>], [pk |-> "ph", pv |-> <<"r","e","w","r","i","t","e","_","p","a","t","h">>], [pk |-> "lit", pv |-> <<"?","f","r","o","m","=">>], [pk |-> "ph", pv |-> <<"p","a","t","h">>]>>, "303") >>),
   \* redir /d/x.html landed 308                          (relative target)
   r_rel    |-> ArgsLine(Entry(<<"/","d","/","x",".","h","t","m","l">>, <<[pk |-> "lit", pv |-> <<"l","a","n","d","e","d">>]>>, "308"), <<>>, FALSE),
-  \* redir /api/v1 /new?{query} meta
-  r_meta   |-> ArgsLine(Entry(<<"/","a","p","i","/","v","1">>, <<[pk |-> "lit", pv |-> <<"/","n","e","w","?">>], [pk |-> "ph", pv |-> <<"q","u","e","r","y">>]>>, "meta"), <<>>, FALSE),
+  \* redir /api/v1 /new?a=1&{query} meta                 (the page carries the target HTML-escaped)
+  r_meta   |-> ArgsLine(Entry(<<"/","a","p","i","/","v","1">>, <<[pk |-> "lit", pv |-> <<"/","n","e","w","?","a","=","1","&">>], [pk |-> "ph", pv |-> <<"q","u","e","r","y">>]>>, "meta"), <<>>, FALSE),
   \* redir 307 { /old /t1 ; /d/ /t2/../x/ 308 }
   r_tab    |-> TableLine("307", <<>>, FALSE, << Entry(<<"/","o","l","d">>, <<[pk |-> "lit", pv |-> <<"/","t","1">>]>>, ""), Entry(<<"/","d","/">>, <<[pk |-> "lit", pv |-> <<"/","t","2","/",".",".","/","x","/">>]>>, "308") >>),
   \* redir { if_op or ; if {query} has k= ; if {path} match \.php$ ; / /q/{1}?{query} }
